@@ -17,6 +17,7 @@ import (
 	"strings"
 	"sync"
 	"time"
+	"verifharness/internal/src"
 
 	"github.com/mandykoh/prism"
 	"github.com/mandykoh/prism/ciexyy"
@@ -93,10 +94,66 @@ type c11Shared struct {
 	sharedMD   []*meta.Data
 	sharedProf []*icc.Profile
 	premul     *image.RGBA
+	rejects    []c11Reject
 }
+
+// c11Reject is one input of the "rejects" target: mostly inputs a loader turns down, each for a
+// reason of its own, mixed with a few it accepts.
+type c11Reject struct {
+	name, loader string
+	data         []byte
+}
+
+func c11Rejects() []c11Reject {
+	var out []c11Reject
+	rng := core.NewRNG(1, "c11rejects")
+	// RIFF/WEBP streams whose first chunk is not a bitstream header, each with a FourCC of its own
+	for i, cc := range []string{"ALPH", "ANIM", "EXIF", "ICCP", "XMP ", "Qa01", "Qb02", "VP8Z", "vp8x", "ANMF"} {
+		body := append(append([]byte(cc), 8, 0, 0, 0), rng.Bytes(8)...)
+		data := append(append([]byte("RIFF"), byte(4+len(body)), 0, 0, 0), append([]byte("WEBP"), body...)...)
+		out = append(out, c11Reject{"webp first chunk " + cc, []string{"webpmeta", "autometa"}[i%2], data})
+	}
+	plain, _ := imggen.JPEGSpec{Precision: 8, W: 31, H: 17, Comps: imggen.StdComps(3, 2, 2), Entropy: []byte{1, 2, 3}}.Build()
+	withICC, _ := imggen.JPEGSpec{Precision: 8, W: 33, H: 19, Comps: imggen.StdComps(3, 1, 1), Before: []imggen.JPEGSeg{imggen.ICCChunkSeg(1, 1, bytes.Repeat([]byte("j"), 300))}, Entropy: []byte{1}}.Build()
+	out = append(out, c11Reject{"jpeg without profile", "jpegmeta", plain}, c11Reject{"jpeg with profile", "jpegmeta", withICC})
+	for _, lead := range [][]byte{{0}, {'x', 'y'}, {0xFF}, {0x20, 0x20, 0x20, 0x20}, {0xFF, 0x00}} {
+		out = append(out, c11Reject{fmt.Sprintf("jpeg behind % x", lead), "jpegmeta", append(append([]byte{}, lead...), plain...)})
+		out = append(out, c11Reject{"jpeg without profile (again)", "jpegmeta", plain})
+	}
+	out = append(out, c11Reject{"jpeg SOI then 12 34", "jpegmeta", []byte{0xFF, 0xD8, 0x12, 0x34, 0, 0, 0, 0}})
+	out = append(out, c11Reject{"jpeg SOI then FF 01 FF 02", "autometa", []byte{0xFF, 0xD8, 0xFF, 0x01, 0xFF, 0x02, 0xFF, 0xD9}})
+	png, _ := pngSpecFor(45, 23, 2, 8, 0, rng).Build()
+	out = append(out, c11Reject{"png", "pngmeta", png}, c11Reject{"png cut in IHDR", "pngmeta", png[:20]}, c11Reject{"png signature damaged", "pngmeta", append([]byte{0x89, 'P', 'N', 'G', 13, 10, 26, 11}, png[8:]...)})
+	for i, ct := range []string{"IDAT", "PLTE", "IEND", "tEXt"} {
+		b, _ := imggen.PNGSpec{W: 7, H: 9, Depth: 8, ColorType: 2, IDAT: []byte{1}}.Build()
+		copy(b[12:16], ct) // first chunk is not IHDR
+		out = append(out, c11Reject{"png first chunk " + ct, []string{"pngmeta", "autometa"}[i%2], b})
+	}
+	out = append(out, c11Reject{"garbage", "autometa", rng.Bytes(64)}, c11Reject{"empty", "autometa", nil}, c11Reject{"text", "autometa", []byte("not an image at all, just text")})
+	vp8l, _ := imggen.WebPSpec{Kind: "VP8L", W: 12, H: 34, Payload: []byte{1, 2, 3, 4}}.Build()
+	out = append(out, c11Reject{"webp vp8l", "webpmeta", vp8l}, c11Reject{"webp vp8l cut", "webpmeta", vp8l[:22]})
+	return out
+}
+
+// c11Outcome is everything a caller can see of one load: success, values, error text.
+func c11Outcome(it c11Reject) string {
+	res := loadWith(it.loader, bytes.NewReader(it.data))
+	s := summarise(res)
+	rest := -1
+	if res.Stream != nil && res.Panic == nil {
+		b, _, _ := src.ReadAllChunks(res.Stream, 512, int64(len(it.data))+4096)
+		rest = len(b)
+	}
+	return fmt.Sprintf("%s stream=%d", sumStr(s), rest) + " err=" + s.ErrText
+}
+
+var c11AloneTable []uint64
+var c11AloneMu sync.Mutex
+var c11AloneMism = map[int]string{}
 
 func newC11Shared() *c11Shared {
 	sh := &c11Shared{}
+	sh.rejects = c11Rejects()
 	for _, s := range smallSeeds(1) {
 		if s.Truth.Format != "" {
 			sh.files = append(sh.files, s.Bytes)
@@ -371,6 +428,21 @@ func c11Step(target string, g, it int, sh *c11Shared) uint64 {
 				}
 			}
 		}
+	case target == "rejects":
+		if it%4 != 0 {
+			return 0
+		}
+		k := (g*3 + it/4) % len(sh.rejects)
+		out := c11Outcome(sh.rejects[k])
+		oh := fnv64([]byte(out))
+		h = mix(h, oh)
+		if k < len(c11AloneTable) && c11AloneTable[k] != oh {
+			c11AloneMu.Lock()
+			if _, dup := c11AloneMism[k]; !dup {
+				c11AloneMism[k] = fmt.Sprintf("%s.Load of %q gave %s", sh.rejects[k].loader, sh.rejects[k].name, out)
+			}
+			c11AloneMu.Unlock()
+		}
 	case target == "icc":
 		if it%10 != 0 {
 			return 0
@@ -407,7 +479,7 @@ func float32bits(f float32) uint32 {
 }
 
 var c11Targets = []string{"srgb.from16", "srgb.to16", "srgb.both", "adobergb.from16", "adobergb.to16", "adobergb.both", "prophotorgb.from16", "prophotorgb.to16", "prophotorgb.both",
-	"displayp3", "colors", "tables8", "images", "images-inplace", "images-rgba64", "images-wide", "shared-objects", "convert-premul", "generate", "hash-transform", "convert", "adapt", "loaders", "icc", "mixed"}
+	"displayp3", "colors", "tables8", "images", "images-inplace", "images-rgba64", "images-wide", "shared-objects", "convert-premul", "generate", "hash-transform", "convert", "adapt", "loaders", "rejects", "icc", "mixed"}
 
 func c11Lazy(t string) bool {
 	return strings.Contains(t, ".from16") || strings.Contains(t, ".to16") || strings.Contains(t, ".both") || t == "displayp3" || t == "colors" || t == "mixed"
@@ -424,6 +496,23 @@ func childC11(args []string) int {
 	var n, park int
 	fmt.Sscanf(args[1], "%d", &n)
 	fmt.Sscanf(args[2], "%d", &park)
+	if target == "rejects-alone" {
+		// the process makes this one call and nothing else: "the value it returns when executed alone"
+		rj := c11Rejects()
+		if n < 0 || n >= len(rj) {
+			return 2
+		}
+		out := c11Outcome(rj[n])
+		fmt.Printf("ALONE %d %016x %s\n", n, fnv64([]byte(out)), strings.ReplaceAll(out, "\n", " "))
+		fmt.Printf("DONE 0\n")
+		return 0
+	}
+	for _, f := range strings.Split(os.Getenv("VERIF_C11_ALONE"), ",") {
+		var v uint64
+		if _, err := fmt.Sscanf(f, "%x", &v); err == nil {
+			c11AloneTable = append(c11AloneTable, v)
+		}
+	}
 	sh := newC11Shared()
 	sums := make([]uint64, n)
 	panics := make([]string, n)
@@ -482,6 +571,9 @@ func childC11(args []string) int {
 		close(release)
 	}()
 	wg.Wait()
+	for k, m := range c11AloneMism {
+		fmt.Printf("ALONE-MISMATCH item=%d %s\n", k, strings.ReplaceAll(m, "\n", " "))
+	}
 	// sequential recomputation
 	mism := 0
 	for g := 0; g < n; g++ {
@@ -544,6 +636,10 @@ func c11Trials(thorough bool) []c11Trial {
 	return out
 }
 
+// c11AloneEnv carries the outcomes of the "rejects" inputs, each obtained in a process of its own,
+// to the trial processes.
+var c11AloneEnv string
+
 type c11Result struct {
 	trial    c11Trial
 	out      string
@@ -557,7 +653,7 @@ func c11Run(work string, t c11Trial, idx int) c11Result {
 	if t.Park {
 		park = "1"
 	}
-	env := []string{fmt.Sprintf("GOMAXPROCS=%d", t.GOMAXPROCS), "VERIF_SEED=1"}
+	env := []string{fmt.Sprintf("GOMAXPROCS=%d", t.GOMAXPROCS), "VERIF_SEED=1", "VERIF_C11_ALONE=" + c11AloneEnv}
 	out, reports, _, timedOut, err := core.RunRaceChildOpts(work, fmt.Sprintf("t%d", idx), env, 5*time.Minute, "history_size=7", "C11", t.Target, fmt.Sprint(t.N), park)
 	return c11Result{t, string(out), reports, err, timedOut}
 }
@@ -567,6 +663,38 @@ func runC11(r *core.Run) {
 	r.Assumptions = []string{"the Go race detector's happens-before analysis (GORACE history_size=7); schedules with a synchronisation shape never produced by these trials are not covered", "race reports are attributed by the innermost frame of the library in either access stack"}
 	work := core.WorkDir("C11")
 	defer os.RemoveAll(work)
+	// "the value it returns when executed alone": one process per input of the rejects target
+	{
+		rj := c11Rejects()
+		alone := make([]string, len(rj))
+		texts := make([]string, len(rj))
+		core.ParallelFor(len(rj), 8, func(k int) {
+			res := c11Run(work, c11Trial{"rejects-alone", k, 2, false, 0}, 200000+k)
+			for _, line := range strings.Split(res.out, "\n") {
+				var kk int
+				var h uint64
+				if n, _ := fmt.Sscanf(line, "ALONE %d %x", &kk, &h); n == 2 && kk == k {
+					alone[k] = fmt.Sprintf("%x", h)
+					texts[k] = line
+				}
+			}
+		})
+		ok := 0
+		for k := range alone {
+			if alone[k] == "" {
+				alone[k] = "0"
+				r.Inconclusive(fmt.Sprintf("no outcome from the process that loads %q alone", rj[k].name))
+			} else {
+				ok++
+			}
+		}
+		c11AloneEnv = strings.Join(alone, ",")
+		r.AddEvals(int64(ok))
+		r.Obs("inputs_loaded_alone_in_their_own_process", ok)
+		if len(texts) > 0 {
+			r.Sample(map[string]any{"alone": texts[0]})
+		}
+	}
 	trials := c11Trials(r.Thorough())
 	results := make([]c11Result, len(trials))
 	core.ParallelFor(len(trials), 6, func(i int) {
@@ -614,6 +742,8 @@ func runC11(r *core.Run) {
 			switch {
 			case strings.HasPrefix(line, "MISMATCH "):
 				r.Violate("value", "value/"+t.Target, fmt.Sprintf("trial %+v: a call returned a different value under concurrency than alone: %s", t, line), t)
+			case strings.HasPrefix(line, "ALONE-MISMATCH "):
+				r.Violate("value", "value-vs-alone/"+t.Target, fmt.Sprintf("trial %+v: a load returned something else than it does when it is the only call of its process: %s", t, line), t)
 			case strings.HasPrefix(line, "PANIC "):
 				r.Violate("value", "panic/"+t.Target, fmt.Sprintf("trial %+v: a goroutine panicked: %s", t, line), t)
 			case strings.HasPrefix(line, "OVERLAP "):
